@@ -174,6 +174,9 @@ type World struct {
 	// when set, a Put/Remove is allowed to lose against a concurrent op (A engine handles oracles itself)
 	ledger *Ledger
 	relocs int
+	// real: the world runs on the real file system under vos.SetRealRoot
+	// (shim-fidelity runs); FS is then an unused placeholder.
+	real bool
 	// GCErrors collects errors returned by GC cycles (not violations).
 	GCErrors []string
 	// Flags are trace predicates evaluated by the harness itself; they become
@@ -277,7 +280,11 @@ func (w *World) options() []store.Option {
 
 // Open opens the store on the world's file system.
 func (w *World) Open() error {
-	vos.SetBackend(w.FS)
+	if w.real {
+		vos.SetBackend(nil)
+	} else {
+		vos.SetBackend(w.FS)
+	}
 	s, err := store.OpenStore(context.Background(), w.Cfg.primaryType(), dataPath, idxPath, w.Cfg.Immutable, w.options()...)
 	if err != nil {
 		return err
@@ -748,6 +755,9 @@ func (w *World) reopen(mode int) *Violation {
 	}
 	switch mode {
 	case 1:
+		if w.real {
+			vos.Remove(idxPath + ".buckets")
+		}
 		w.FS.RemoveRaw(idxPath + ".buckets")
 	case 2:
 		if data, ok := w.FS.ReadFileRaw(idxPath + ".buckets"); ok && len(data) > 0 {
